@@ -49,6 +49,11 @@ func (vc *VC) TranslateLemma(l *Lemma) (sc *Script, err error) {
 			switch s.Kind {
 			case KStr:
 				f.assume(T(SBool, "(str.wf %s)", nm))
+			case KSeq:
+				f.assume(T(SBool, "(and (>= (seq.len %s) 0) (<= (seq.len %s) max64))", nm, nm))
+				if s.Elem.Kind == KStr {
+					f.assume(T(SBool, "(forall ((q!k Int)) (! (str.wf (select (seq.el %s) q!k)) :pattern ((select (seq.el %s) q!k))))", nm, nm))
+				}
 			}
 		case "assume":
 			t, e := ToSMT(st.Clause.Expr, env())
